@@ -345,7 +345,17 @@ def r08g(ctx):
     ctx.check(ok, "R08g", c, "several signals need as many polarizations (else ValueError); a single signal is wrapped with its polarization", "", key_detail="length guard")
 
 
+def r08h(ctx):
+    """apply_response filters a *copy* of the incoming signal; for a function-backed signal the copy must not share the inner filter lists
+    with the input, or every further pass through an antenna stacks another response on the caller's signal (output != filtered input times
+    gains from the second call on).  Decided by C04's R04c; reported here as well."""
+    from . import c04
+    from ._cross import relay
+    relay(ctx, "R08h", "the copy that apply_response filters shares no component list with the incoming signal (= R04c)", "C04", c04.r04c, "R04c", kind="N")
+
+
 def run(ctx):
+    ctx.guard(r08h)
     ctx.guard(r08a)
     ctx.guard(r08b)
     ctx.guard(r08c)
